@@ -113,7 +113,11 @@ def handle (line : String) : String :=
           let agree := if φ.size ≤ 6 then
               (ts.map (Dense.rhoD cfg w φ)).map (fun o => o.map Float.toBits) == vals.map (fun o => o.map Float.toBits)
             else true
-          if agree then s!"ok {showOptVals vals} | {d.num}/{d.den} {e}" else "model-mismatch"
+          -- inf - inf somewhere in a sub-formula: outside the domain of the semantics
+          let nanTaint := (subs φ).any (fun ψ => (Dense.sigOf cfg w ψ).any (fun p => p.2.isNaN))
+          if !agree then "model-mismatch"
+          else if nanTaint then s!"undef | {d.num}/{d.den} {e}"
+          else s!"ok {showOptVals vals} | {d.num}/{d.den} {e}"
       | _, _, _, _ => "bad-input"
   | "ia" :: sem :: inputs :: f :: _ =>
       -- the IA predicate override as a formula transformation
